@@ -37,8 +37,13 @@ RULE = ('strings from a grammar of prompt fragments, brackets, quotes, backslash
         'plus damaged well-formed docstrings and google-layout docstrings whose Example blocks are valid or broken by construction: model '
         'ops `parse` and `docexamples` vs DoctestParser().parse and core.parse_docstr_examples x 3 styles (examples, warning, escaping '
         'exception class), module files with one malformed docstring among valid ones through core.parse_doctestables (siblings collected '
-        'and run). non-trivial = the parser rejects the text or a block of it; distinct = distinct (text, style)')
+        'and run); the same modules identified by path / dotted name / live module object (with and without __file__) / path::callname '
+        'and name::callname through the runner x analysis auto/static/dynamic x warnings filter always/error/ignore. non-trivial = the parser rejects the text or a block of it; distinct = distinct (text, style)')
 ASSUMPTIONS = [
+    "with the warnings filter 'error' in force the caller asked for warnings to be exceptions: the property then demands that the ONLY "
+    "exception leaving collection is that warning itself (UserWarning 'Cannot scrape callname=...'); any other class is an escape. "
+    "With 'ignore' no warning is observable and only 'no exception, siblings collected' is checked",
+    'a live module object combined with analysis=static is API misuse (documented exception), not generated',
     'CPython ast.parse facts are supplied to the model per chunk; the google splitter is an oracle input (its own model belongs to C07)',
     'str.lower in the freeform skip-pattern test is modelled for ASCII',
     'a hang is detected by a 5 s CPU-time alarm per case (ITIMER_PROF, main thread of each worker; wall-clock backstop 300 s)',
@@ -461,6 +466,124 @@ def run_modules(ctx, corr, n_modules):
         shutil.rmtree(tmp, ignore_errors=True)
 
 
+IDENT_KINDS = ('path', 'name', 'module', 'module_nofile', 'runner:path::callname', 'runner:name::callname', 'runner:path',
+               'runner:module')
+ANALYSES = ('auto', 'static', 'dynamic')
+FILTERS = ('always', 'error', 'ignore')
+
+
+def _ident_combo_valid(kind, analysis):
+    # a live module object can only be analysed dynamically (core.parse_calldefs raises the documented
+    # "Static analysis required, but ... requires dynamic analysis" otherwise: API misuse, not a malformed docstring)
+    return not (kind in ('module', 'module_nofile') and analysis == 'static')
+
+
+def _is_the_warning(ex):
+    """with warnings promoted to errors the user asked for the warning to BE an exception: the only exception that may
+    leave collection then is that warning itself - a UserWarning whose text is the 'Cannot scrape callname=' message"""
+    return isinstance(ex, Warning) and str(ex).startswith('Cannot scrape callname=')
+
+
+def _ident_fails(source, kind, analysis, filt, style, modname='mod_c14_ident'):
+    """one way of identifying the module x analysis mode x warnings filter, on the REAL code; returns a problem or None.
+    Demanded: no exception leaves collection - except, under the filter 'error', the contained warning itself; when nothing
+    is raised every valid sibling is collected exactly once (and, through the runner, runs and passes); under 'always' a
+    module with a docstring the parser rejects produces at least one warning."""
+    import importlib.util
+    import re
+    import sys
+    import types
+    from xdoctest import core, runner
+    siblings = re.findall(r"^# SIBLING (\w+)$", source, re.M)
+    tmp = tempfile.mkdtemp(prefix='xdocverif-')
+    saved_path = list(sys.path)
+    try:
+        path = os.path.join(tmp, modname + '.py')
+        with open(path, 'w', encoding='utf8') as f:
+            f.write(source)
+        sys.path.insert(0, tmp)
+        sys.modules.pop(modname, None)
+        ident = path
+        if kind in ('name',):
+            ident = modname
+        elif kind in ('module', 'runner:module'):
+            spec = importlib.util.spec_from_file_location(modname, path)
+            ident = importlib.util.module_from_spec(spec)
+            spec.loader.exec_module(ident)
+        elif kind == 'module_nofile':
+            ident = types.ModuleType(modname)
+            exec(compile(source, '<' + modname + '>', 'exec'), ident.__dict__)
+        target = siblings[0] if siblings else None
+        if kind in ('runner:path::callname', 'runner:name::callname') and target is None:
+            return None
+        exs = None
+        summary = None
+        with warnings.catch_warnings(record=True) as w, contextlib.redirect_stdout(io.StringIO()), \
+                contextlib.redirect_stderr(io.StringIO()):
+            warnings.simplefilter(filt)
+            try:
+                with _limit(30.0):
+                    if kind.startswith('runner:'):
+                        if kind == 'runner:path::callname':
+                            summary = runner.doctest_module(path + '::' + target, argv=[''], style=style, analysis=analysis, verbose=0)
+                        elif kind == 'runner:name::callname':
+                            summary = runner.doctest_module(modname + '::' + target, argv=[''], style=style, analysis=analysis, verbose=0)
+                        else:
+                            summary = runner.doctest_module(ident, 'all', argv=[''], style=style, analysis=analysis, verbose=0)
+                    else:
+                        exs = list(core.parse_doctestables(ident, style=style, analysis=analysis))
+            except _Timeout:
+                return {'observed': 'hang', 'expected_by_spec': 'collection returns'}
+            except BaseException as ex:
+                if filt == 'error' and _is_the_warning(ex):
+                    return None         # the contained warning, promoted by the filter the caller installed
+                return {'observed': 'escaped %s: %s' % (type(ex).__name__, str(ex)[:120]),
+                        'expected_by_spec': 'no exception leaves collection (under the filter "error": only the warning itself)'}
+            nwarn = len([x for x in w if str(x.message).startswith('Cannot scrape callname=')])
+        if exs is not None:
+            got = [e.callname for e in exs]
+            missing = [n for n in siblings if got.count(n) != 1]
+            if missing:
+                return {'observed': 'collected %r' % got, 'expected_by_spec': 'every valid sibling exactly once: %r' % siblings}
+        else:
+            want = 1 if '::' in kind else len(siblings)
+            if summary.get('n_passed', 0) < want:
+                return {'observed': 'runner summary n_passed=%r n_failed=%r' % (summary.get('n_passed'), summary.get('n_failed')),
+                        'expected_by_spec': 'at least %d valid sibling(s) run and pass' % want}
+        return None
+    finally:
+        sys.path[:] = saved_path
+        sys.modules.pop(modname, None)
+        shutil.rmtree(tmp, ignore_errors=True)
+
+
+def run_identifiers(ctx, corr, n_modules):
+    """every way of identifying a module x every analysis mode x the warnings filters, on modules with a malformed docstring"""
+    rng = ctx.sub_rng('identifiers')
+    for k in range(n_modules):
+        source, names, bad = gen_module(rng, 1000 + k)
+        if not bad:
+            source = source + '\n# MALFORMED g%d\ndef g%d():\n    %r\n    return 0\n' % (k, k, rng.choice(BROKEN_BODIES))
+        for kind in IDENT_KINDS:
+            for analysis in ANALYSES:
+                if not _ident_combo_valid(kind, analysis):
+                    continue
+                for filt in FILTERS:
+                    style = rng.choice(STYLES)
+                    corr.count('identifiers')
+                    corr.tag('ident:%s:%s:%s' % (kind, analysis, filt))
+                    f = _ident_fails(source, kind, analysis, filt, style, modname='mod_c14i_%d' % k)
+                    if f:
+                        if f['observed'] == 'hang':
+                            corr.expect_fail('identifiers', {'module': source, 'ident': kind, 'analysis': analysis, 'filter': filt, 'style': style},
+                                             f['expected_by_spec'], f['observed'], 'collection hangs')
+                            return
+                        corr.expect_fail('identifiers', {'module': source, 'ident': kind, 'analysis': analysis, 'filter': filt,
+                                                         'style': style}, f['expected_by_spec'], f['observed'],
+                                         'collection of a module with a malformed docstring')
+                    corr.nontriv(('ident', source, kind, analysis, filt))
+
+
 def run_fault_injection(ctx, corr):
     """the splitter of the current tree can not raise MalformedDocstr (its only raise sits under `if False`), so the
     branch of parse_docstr_examples / parse_google_docstr_examples that downgrades it is exercised by injection: the
@@ -535,6 +658,7 @@ def correspondence(ctx, corr):
                              'the same outcome (parts / error class, examples, warning) every time, nothing escapes', probs,
                              'containment must not depend on what happened earlier in the process')
     run_modules(ctx, corr, 40 if ctx.quick else 400)
+    run_identifiers(ctx, corr, 6 if ctx.quick else 60)
     run_fault_injection(ctx, corr)
 
 
@@ -606,6 +730,15 @@ def _module_fails(source, style):
         shutil.rmtree(tmp, ignore_errors=True)
 
 
+def _shrink_module(source, still_fails):
+    """drop whole functions (marker + def) while the failure persists"""
+    import re
+    chunks = re.split(r'(?m)^(?=# (?:SIBLING|MALFORMED) )', source)
+    chunks = [c for c in chunks if c]
+    kept = shrink_list(chunks, lambda cs: still_fails(''.join(cs)), max_steps=40)
+    return ''.join(kept)
+
+
 def search(ctx, corr, broken):
     found = []
     # 1. what the correspondence already saw
@@ -624,7 +757,13 @@ def search(ctx, corr, broken):
             if f:
                 found.append({'input': dict(i), **f})
             continue
-        if 'module' in i:
+        if 'ident' in i:
+            f = _ident_fails(i['module'], i['ident'], i['analysis'], i['filter'], i['style'])
+            if f:
+                src = _shrink_module(i['module'], lambda m: _ident_fails(m, i['ident'], i['analysis'], i['filter'], i['style']) is not None)
+                f = _ident_fails(src, i['ident'], i['analysis'], i['filter'], i['style']) or f
+                found.append({'input': dict(i, module=src), **f})
+        elif 'module' in i:
             f = _module_fails(i['module'], i['style'])
             if f:
                 found.append({'input': {'module': i['module'], 'style': i['style']}, **f})
@@ -674,6 +813,18 @@ def search(ctx, corr, broken):
                 break
         if len(found) >= 3:
             return found
+    for k in range(4):
+        source, names, bad = gen_module(rng, 2000 + k)
+        source += '\n# MALFORMED gx\ndef gx():\n    %r\n    return 0\n' % BROKEN_BODIES[0]
+        for kind in IDENT_KINDS:
+            for analysis in ANALYSES:
+                if not _ident_combo_valid(kind, analysis):
+                    continue
+                for filt in FILTERS:
+                    f = _ident_fails(source, kind, analysis, filt, 'auto')
+                    if f:
+                        found.append({'input': {'module': source, 'ident': kind, 'analysis': analysis, 'filter': filt, 'style': 'auto'}, **f})
+                        return found
     for k in range(60):
         source, names, bad = gen_module(rng, k)
         for st in STYLES:
@@ -794,6 +945,11 @@ def replay(ctx, failing):
     if i.get('inject'):
         f = _fails_injected(i['docstring'], i['style'])
         print('input: docstring=%r style=%s, splitter raising MalformedDocstr -> %s' % (i['docstring'], i['style'], f or 'contained'))
+        return f is not None
+    if 'ident' in i:
+        f = _ident_fails(i['module'], i['ident'], i['analysis'], i['filter'], i['style'])
+        print('input: generated module identified by %s, analysis=%s, warnings filter=%s, style=%s\n%s\n -> %s' % (
+            i['ident'], i['analysis'], i['filter'], i['style'], i['module'], f or 'contained: siblings collected'))
         return f is not None
     if 'module' in i:
         f = _module_fails(i['module'], i['style'])
